@@ -182,7 +182,7 @@ def run_case(case, res):
                                 bad.append(f"DOT edges (unique={unique}, add_self={add_self}, root={isroot}): got {dict(ge)}, expected {dict(exp_edges)}")
                             for x in D:
                                 labs = gn.get(str(key(x)), set())
-                                if x.name not in labs:
+                                if gen.expected_name(x) not in labs:
                                     bad.append(f"DOT node {key(x)} lacks label {x.data!r}: {labs}")
                             if isroot and add_self and "TNAME" not in gn.get(str(key(start)), set()):
                                 bad.append("DOT root node lacks the tree name as label")
@@ -199,8 +199,8 @@ def run_case(case, res):
                             names, medges, mroot = parse_mermaid(fp.getvalue())
                             if len(names) != len(exp_nodes):
                                 bad.append(f"Mermaid defines {len(names)} nodes, expected {len(exp_nodes)} (unique={unique}, add_self={add_self}, root={isroot})")
-                            name_of_key = {str(key(x)): x.name for x in D}
-                            name_of_key[str(key(start))] = "TNAME" if isroot else start.name
+                            name_of_key = {str(key(x)): gen.expected_name(x) for x in D}
+                            name_of_key[str(key(start))] = "TNAME" if isroot else gen.expected_name(start)
                             exp_m = Counter((name_of_key[a], name_of_key[b], k) for (a, b, k), c in exp_edges.items() for _ in range(c))
                             got_m = Counter((names.get(a), names.get(b), k) for a, b, k in medges)
                             if got_m != exp_m:
@@ -218,7 +218,7 @@ def run_case(case, res):
                                     return (names[i], [gshape(j) for j in kidsof.get(i, [])])
 
                                 def tshape(x):
-                                    return (x.name, [tshape(c) for c in x.children])
+                                    return (gen.expected_name(x), [tshape(c) for c in x.children])
 
                                 if add_self:
                                     rootidx = [i for i in names if indeg[i] == 0]
@@ -226,7 +226,7 @@ def run_case(case, res):
                                         bad.append(f"Mermaid (unique_nodes=False, add_self): {len(rootidx)} graph roots")
                                     else:
                                         g = gshape(rootidx[0])
-                                        e = ("TNAME" if isroot else start.name, [tshape(c) for c in start.children])
+                                        e = ("TNAME" if isroot else gen.expected_name(start), [tshape(c) for c in start.children])
                                         if g != e:
                                             bad.append(f"Mermaid shape differs: {g} vs {e}")
                                             res.count("mermaid_shape_mismatch")
@@ -256,11 +256,11 @@ def run_case(case, res):
                     if got != exp:
                         bad.append(f"RDF has_child (root={isroot}, add_self={add_self}): got {sorted(map(str, got))}, expected {sorted(map(str, exp))}")
                     gotn = {(s, o) for s, p, o in g.triples((None, NUTREE_NS.name, None))}
-                    expn = {(Literal(x.data_id), Literal(x.name)) for x in D}
+                    expn = {(Literal(x.data_id), Literal(gen.expected_name(x))) for x in D}
                     if isroot:
                         expn.add((rootref, Literal("TNAME")))
                     elif add_self:
-                        expn.add((Literal(start.data_id), Literal(start.name)))
+                        expn.add((Literal(start.data_id), Literal(gen.expected_name(start))))
                     if gotn != expn:
                         bad.append(f"RDF name triples (root={isroot}, add_self={add_self}): got {sorted(map(str, gotn))}, expected {sorted(map(str, expn))}")
                     if not isroot:
